@@ -136,6 +136,34 @@ def mocks(bm_mod):
     return out, [k for k, _ in installed]
 
 
+SCALAR_CASE = ["ty = python_value_to_guppy_type(v, node, get_tracing_state().globals)",
+               "if ty is None:\n    raise GuppyError(IllegalComptimeExpressionError(node, type(v)))",
+               "hugr_val = python_value_to_hugr(v, ty, ctx)",
+               "assert hugr_val is not None",
+               "return GuppyObject(ty, builder.load(hugr_val))"]
+
+
+def scalar_case(root):
+    """guppy_object_from_py: the catch-all `case v:` (Python scalars) must build a fresh constant on every
+    call: type it, lower it, `builder.load` it — no lookup in any cache.  Also the per-trace state
+    (TracingState fields) is read so that a new field fails closed."""
+    un = parse_file(root / "tracing/unpacking.py")
+    f = find_func(un, "guppy_object_from_py")
+    m = [n for n in strip_doc(f.body) if isinstance(n, ast.Match)]
+    if len(m) != 1 or U(m[0].subject) != "v":
+        raise TranslatorError("guppy_object_from_py is no longer a single `match v`")
+    last = m[0].cases[-1]
+    if U(last.pattern) != "v" or last.guard is not None:
+        raise TranslatorError(f"guppy_object_from_py: last case is `{U(last.pattern)}`, expected the catch-all `v`")
+    got = [U(x) for x in last.body]
+    if got != SCALAR_CASE:
+        raise TranslatorError(f"guppy_object_from_py scalar case has an unknown shape (constants must be built fresh per use): {got}")
+    pats = [U(c.pattern) for c in m[0].cases]
+    st = parse_file(root / "tracing/state.py")
+    fields = [n.target.id for n in find_class(st, "TracingState").body if isinstance(n, ast.AnnAssign) and isinstance(n.target, ast.Name)]
+    return pats, fields
+
+
 def translate(repo):
     root = repo / INT
     obj = parse_file(root / "tracing/object.py")
@@ -160,6 +188,7 @@ def translate(repo):
     if synth is None or body_src(synth) != SYNTH:
         raise TranslatorError(f"_synthesize_binary has an unknown shape: {None if synth is None else body_src(synth)}")
     mk, installed = mocks(bm)
+    pats, st_fields = scalar_case(root)
     go = find_class(obj, "GuppyObject")
     if [U(b) for b in go.bases] != ["DunderMixin"]:
         raise TranslatorError("GuppyObject bases changed")
@@ -200,7 +229,12 @@ def translate(repo):
          "  end.\n",
          "(* tracing/builtins_mock.py: builtin name -> dunder called on a GuppyObject argument; names installed by mock_builtins *)",
          "Definition mocked_builtins : list (string * string) := " + coq_list([f"({s(a)}, {s(b)})" for a, b, _ in mk]) + ".",
-         f"Definition mock_installed : list string := {coq_list([s(x) for x in installed])}.",
+         f"Definition mock_installed : list string := {coq_list([s(x) for x in installed])}.\n",
+         "(* tracing/unpacking.py guppy_object_from_py: the patterns of its `match v`, the steps of the scalar catch-all case;",
+         "   tracing/state.py: the fields of the per-trace TracingState *)",
+         f"Definition from_py_patterns : list string := {coq_list([s(x.replace(chr(34), chr(39))) for x in pats])}.",
+         "Definition scalar_case_steps : list string := [\"type\"; \"reject-unrepresentable\"; \"lower\"; \"assert\"; \"load-fresh\"].",
+         f"Definition tracing_state_fields : list string := {coq_list([s(x) for x in st_fields])}.",
          ]
     return "\n".join(o) + "\n", {"dunder_methods": len(dm), "binary_ops": len(bt), "unary_ops": len(ut),
                                  "non_self_delegates": [(m, d) for m, d, _, _ in dm if m != d]}
